@@ -35,11 +35,15 @@ func (t *tb) Skip(args ...any)                  { t.Log(args...); panic(stop{}) 
 func (t *tb) SkipNow()                          { panic(stop{}) }
 func (t *tb) Errorf(format string, args ...any) { t.failed = true; t.Logf(format, args...) }
 func (t *tb) Error(args ...any)                 { t.failed = true; t.Log(args...) }
-func (t *tb) Fatalf(format string, args ...any) { t.failed = true; t.Logf(format, args...); panic(stop{}) }
-func (t *tb) Fatal(args ...any)                 { t.failed = true; t.Log(args...); panic(stop{}) }
-func (t *tb) FailNow()                          { t.failed = true; panic(stop{}) }
-func (t *tb) Fail()                             { t.failed = true }
-func (t *tb) Failed() bool                      { return t.failed }
+func (t *tb) Fatalf(format string, args ...any) {
+	t.failed = true
+	t.Logf(format, args...)
+	panic(stop{})
+}
+func (t *tb) Fatal(args ...any) { t.failed = true; t.Log(args...); panic(stop{}) }
+func (t *tb) FailNow()          { t.failed = true; panic(stop{}) }
+func (t *tb) Fail()             { t.failed = true }
+func (t *tb) Failed() bool      { return t.failed }
 
 // Seed maps any value to a non-zero rapid seed (0 means "random" to rapid).
 func Seed(parts ...uint64) uint64 {
